@@ -56,7 +56,9 @@ def _values():
                  sp.TextOutlineType(L(0.1, U.c), blue), sp.TextOutlineType(L(2, U.px), None), sp.TextOutlineType(L(1, U.rh), None)],
     TextShadow=[sp.SpecialValues.none, sp.TextShadowType((sh(L(1, U.em), L(1, U.em)),)),
                 sp.TextShadowType((sh(L(2, U.px), L(2, U.px), L(1, U.px), red), sh(L(10, U.pct), L(10, U.pct), None, blue))),
-                sp.TextShadowType((sh(L(0.1, U.c), L(0.1, U.c), L(0.1, U.c)), sh(L(1, U.rh), L(1, U.rw)), sh(L(1, U.em), L(1, U.em), None, red)))],
+                sp.TextShadowType((sh(L(0.1, U.c), L(0.1, U.c), L(0.1, U.c)), sh(L(1, U.rh), L(1, U.rw)), sh(L(1, U.em), L(1, U.em), None, red))),
+                sp.TextShadowType((sh(L(2, U.px), L(2, U.px)), sh(L(1, U.em), L(1, U.em), None, red), sh(L(2, U.px), L(2, U.px)),
+                                   sh(L(2.0, U.px), L(2.0, U.px)), sh(L(3, U.pct), L(3, U.pct), L(1, U.pct), blue)))],
     TextEmphasis=[sp.SpecialValues.none,
                   sp.TextEmphasisType(sp.TextEmphasisType.Style.filled_circle, red, sp.TextEmphasisType.Position.before),
                   sp.TextEmphasisType(sp.TextEmphasisType.Style.auto, None, sp.TextEmphasisType.Position.outside),
@@ -153,7 +155,7 @@ def families(tier):
   fam("lenfs_textoutline", "chain", [("TextOutline", {4: qd([0], [0, 3]), 5: lh, 6: [0, 1]}), fs_span, col_ctx],
       [[], [st(5, 2, 2)], [st(5, 3, 2)], [st(5, 1, 3)]], [[], [dict(ax=1, vi=5)]] + qd([], [[dict(ax=3, vi=3)]]), qd(GEO_DEFAULT, GEO_TWO),
       ["TextOutline", "FontSize", "Color"])
-  fam("lenfs_textshadow", "chain", [("TextShadow", {4: qd([0], [0, 2]), 5: [0, 1, 2, 3, 4], 6: [0, 1]}), fs_span, col_ctx],
+  fam("lenfs_textshadow", "chain", [("TextShadow", {4: qd([0], [0, 2]), 5: [0, 1, 2, 3, 4, 5], 6: [0, 1]}), fs_span, col_ctx],
       [[], [st(5, 2, 2)], [st(5, 3, 2)], [st(5, 1, 4)]], [[], [dict(ax=1, vi=3)]], qd(GEO_DEFAULT, GEO_TWO), ["TextShadow", "FontSize", "Color"])
   # 6. text emphasis: colour default, auto by writing mode
   wm = [0, 1, 2, 3, 4]
